@@ -1,6 +1,7 @@
 """Verdict accounting, known-findings handling and evidence writing."""
 import json
 import os
+import re
 import sys
 import time
 
@@ -97,11 +98,30 @@ class Report:
         self.add(rule, key, UNDECIDED, where, detail)
 
     def floor(self, rule, what, found, floor):
-        """fail closed when fewer anchors than confirmed by hand were found"""
+        """fewer anchors than were confirmed by hand on the reference tree: the rule covers
+        less than it claims. This is never an accusation of the code: it is recorded as an
+        UNDECIDED instance and a CHECK-WARNING line (exit status unaffected); when NOTHING is
+        found the rule would pass vacuously, which is reported the same way."""
         self.floors.append((rule, what, found, floor, self.cfg))
         if found < floor:
-            raise CheckError("%s: anchor count for %s fell to %d (floor %d) in cfg %s"
-                             % (rule, what, found, floor, self.cfg))
+            msg = "%s: anchor count for %s fell to %d (reference %d) in cfg %s" % (
+                rule, what, found, floor, self.cfg)
+            print("CHECK-WARNING %s" % msg, file=sys.stderr)
+            self.unk(rule, "floor|%s" % what, "", msg)
+            self.note(msg)
+
+    def call(self, func, *args, **kw):
+        """run one rule; a missing anchor (CheckError) makes that rule UNDECIDED instead of
+        aborting the whole property check"""
+        try:
+            return func(*args, **kw)
+        except CheckError as e:
+            rule = next((a for a in args if isinstance(a, str) and re.match(r"^C\d\d\.", a)),
+                        getattr(func, "__name__", "rule"))
+            print("CHECK-WARNING %s: %s" % (rule, e), file=sys.stderr)
+            self.unk(rule, "anchor-missing", "", str(e))
+            self.note("%s: %s" % (rule, e))
+            return None
 
     def note(self, s):
         self.notes.append(s)
